@@ -283,7 +283,7 @@ PROPS = {
                       "running for a grace period, no event may be logged and no task may be left. Non-trivial = nested "
                       "schedulers present.",
                  nontrivial=has_nested, side=orphan_side),
-    "C07": RProp("C07", 1, [70], oracles=['window'], profile={"window": 0.9, "exc": 0.4, "cdur": 0.5, "timeout": 0.6, "nested": 0.35, "crit": 0.4,
+    "C07": RProp("C07", 1, [70], oracles=['window'], profile={"fine": 0.4, "window": 0.9, "exc": 0.4, "cdur": 0.5, "timeout": 0.6, "nested": 0.35, "crit": 0.4,
                                           "tie": 0.5, "never": 0.15},
                  rule="C07: after every event the number of direct jobs of each windowed scheduler whose body is executing "
                       "(entered, not yet left, in the state implied by the events so far; a nested scheduler counts as one "
@@ -291,7 +291,7 @@ PROPS = {
                       "requires a free slot in the parent's own window at every start. Non-trivial = some windowed scheduler "
                       "has more direct jobs than its window.",
                  nontrivial=has_tight_window),
-    "C12": RProp("C12", 2, [120, 10, 70], oracles=["eager", "reqs_first", "window"], profile={"window": 0.6, "edge": 0.6, "tie": 0.7, "exc": 0.3, "nested": 0.3, "never": 0.05,
+    "C12": RProp("C12", 2, [120, 10, 70], oracles=["eager", "reqs_first", "window"], profile={"fine": 0.3, "window": 0.6, "edge": 0.6, "tie": 0.7, "exc": 0.3, "nested": 0.3, "never": 0.05,
                                                    "yields": 0.4},
                  rule="C12: whenever the virtual clock moves, in the state implied by the events so far every job of a "
                       "scheduler in its main loop that has not started must have a requirement that is not done, or be queued "
